@@ -995,6 +995,16 @@ class Engine:
             c = ins.args[0][1]
             while c.kind == 'cast': c = c.src
             return s.typeid(c.name)
+        if nm.startswith('llvm.load.relative'):
+            base = s.concretize(st, args[0]); off = s.concretize(st, args[1])
+            v = s.load(st, (base + off) & ((1 << 64) - 1), TInt(32))
+            if is_sym(v): v = s.concretize(st, v)
+            if v >> 31: v -= 1 << 32
+            return (base + v) & ((1 << 64) - 1)
+        if nm.startswith('llvm.abs'):
+            a = args[0]; bits = ins.rty.bits
+            if is_sym(a): return z3.simplify(z3.If(a < 0, -a, a))
+            return ((1 << bits) - a) & ((1 << bits) - 1) if a >> (bits - 1) else a
         if nm.startswith('llvm.stacksave'): return 0
         if nm.startswith('llvm.trap'): raise Violation('trap')
         raise Unsupported('intrinsic ' + nm)
